@@ -255,8 +255,12 @@ def run(ctx: Ctx):
         elif t.get("residue"):
             ctx.violation({"check": "segmentation", "kind": t["kind"], "what": f"{t['residue']} stale bytes left in the "
                            "receive buffer after a complete stream", "lens": t["lens"], "segs": t["segs"]})
+    # ---- Leg T: the trigger-driven receiver / dispatcher loops (model + trace validation of the real threads)
+    from . import c04_trace
+    c04_trace.check(ctx, wd, pmap)
     ctx.rule = ("codec: boundary universe of header fields x body lengths; reassembly: all partitions with <= 3 segments of two "
                 "fixed streams (data + Linktest.req frames), single-byte and one-shot partitions, random partitions of random "
-                "streams, under fifo/random/PCT thread schedules; distinct = distinct (frame lengths, partition)")
+                "streams, under fifo/random/PCT thread schedules; distinct = distinct (frame lengths, partition); every Event / Queue "
+                "operation of the receiver and dispatcher threads in 90 (900) further runs validated by TLC as a behaviour of DispatcherLoops")
     ctx.assumptions += ["frames with SType outside E37's table are outside the property"]
     return ctx.finish()
